@@ -65,7 +65,7 @@ func C06(tier common.Tier) int {
 	fx = append(fx, fixture{"twins", e4.Twins()})
 	fx = append(fx, fixture{"excluded-dep", e4.ExcludedDep()})
 	fx = append(fx, fixture{"same-name", e4.SameName()})
-	run.SetRule("finite grid, enumerated completely: fixture programs (import chain a<-b<-c and diamond, every annotation kind observable one edge away and inert two edges away, 7 @packageonly list shapes) x every non-empty subset of packages named on the command line in both listing orders x drivers {gogreement -json, -debug=p, -debug=s, go vet -vettool -json} plus in-process checker.Analyze in 4 modes (sequential/parallel x fact sanity check); for every package the diagnostic set must equal the `// want` markers in every cell that names it. Second part: the fact value space — reflection-generated PackageAnnotations values wrapped in each of the six fact types, gob round trip as the drivers do it, byte-deterministic encoding. A case is non-trivial when the package's expected set is non-empty.",
+	run.SetRule("finite grid, enumerated completely: fixture programs (import chain a<-b<-c and diamond, every annotation kind observable one edge away and inert two edges away, 7 @packageonly list shapes) x every non-empty subset of packages named on the command line in both listing orders x drivers {gogreement -json, -debug=p, -debug=s, go vet -vettool -json} plus in-process checker.Analyze in 4 modes (sequential/parallel x fact sanity check); for every package the diagnostic set must equal the `// want` markers in every cell that names it; plus the two-module layout (declaring package in a dependency module required at a version and replaced by a directory; both drivers x {whole module, each package, both packages}) with exact want markers for the importing packages. Second part: the fact value space — reflection-generated PackageAnnotations values wrapped in each of the six fact types, gob round trip as the drivers do it, byte-deterministic encoding. A case is non-trivial when the package's expected set is non-empty.",
 		fmt.Sprintf("%d fixture programs; all 2^n-1 run sets x 2 orders x 4 real drivers + 4 in-process modes; fact values: one-factor-at-a-time and all pairs over the string alphabet, lists of length 0..2", len(fx)))
 	run.Assume("x/tools drivers (checker, unitchecker), encoding/gob and the go command are trusted", "expected sets are written next to the fixture lines as want-markers")
 	drv.Binary()
